@@ -8,11 +8,13 @@ package c20
 // (home, redirection target) and the slots refresher owns one more node (the
 // only seed host), all of them holding their replies until the behaviour
 // releases them, so that any completion order of the module is feasible on
-// the FIFO backend connections. The window between the close of the
-// upstream's quit latch and the stop of the backend clients is held open with
-// the verifhook gate "client.Stop" (phase "quit" of the module); the
-// refresher is held after it took a trigger with the gate
-// "upstream.loopRefreshSlots.picked".
+// the FIFO backend connections. Stop closes the upstream's quit latch first
+// and tells every backend client to quit at once, so what can still happen
+// afterwards is done by goroutines that were already on their way; they are
+// held at verifhook gates before the stop begins and released afterwards:
+// the refresher after it took a trigger ("upstream.loopRefreshSlots.picked"),
+// a backend reader with a reply in hand ("client.loopRead.paired"), a session
+// reader with a decoded request ("session.loopRead.decoded").
 
 import (
 	"encoding/json"
@@ -89,7 +91,6 @@ func goroutineDump() string {
 const (
 	rsWait         = 5 * time.Second
 	keyPicked      = "refresh.picked"
-	keyClientStop  = "client.Stop"
 	upstreamExited = "upstream exited"
 )
 
@@ -112,22 +113,16 @@ func (t *rsTrail) key(point string, a, b interface{}) string {
 		if mine {
 			return keyPicked
 		}
-	case "client.Stop":
-		return keyClientStop
+	case "client.loopRead.paired":
+		if k := rsReqKey(b); k != "" {
+			return "paired:" + k
+		}
+	case "session.loopRead.decoded":
+		return "decoded:" + predis.VerifDescribe(a).Addr
+	case "session.loopRead.handled":
+		return "handled:" + predis.VerifDescribe(a).Addr
 	case "simpleRequest.SetResponse":
-		req := predis.VerifDescribe(a)
-		if len(req.Args) == 0 {
-			return ""
-		}
-		k := ""
-		switch strings.ToLower(req.Args[0]) {
-		case "cluster":
-			k = "cluster"
-		case "get":
-			if len(req.Args) > 1 {
-				k = req.Args[1]
-			}
-		}
+		k := rsReqKey(a)
 		if k == "" {
 			return ""
 		}
@@ -139,6 +134,23 @@ func (t *rsTrail) key(point string, a, b interface{}) string {
 		t.mu.Lock()
 		t.comp[k] = append(t.comp[k], txt)
 		t.mu.Unlock()
+	}
+	return ""
+}
+
+// rsReqKey names the request passed to a hook point: the key of a GET, "cluster" for the refresher's request.
+func rsReqKey(obj interface{}) string {
+	req := predis.VerifDescribe(obj)
+	if len(req.Args) == 0 {
+		return ""
+	}
+	switch strings.ToLower(req.Args[0]) {
+	case "cluster":
+		return "cluster"
+	case "get":
+		if len(req.Args) > 1 {
+			return req.Args[1]
+		}
 	}
 	return ""
 }
@@ -192,6 +204,8 @@ type rsReq struct {
 	arrived map[int]int // node index -> arrivals so far
 	conn    *sut.Client
 	forward bool
+	decoded string // gate key of the session reader that holds the request, "" when it does not
+	inhand  bool   // a backend reader is held with the reply
 }
 
 func (q *rsReq) other() *simredis.Node {
@@ -199,6 +213,16 @@ func (q *rsReq) other() *simredis.Node {
 		return q.alt
 	}
 	return q.home
+}
+
+// next step of request r after step i
+func rsNext(steps []rsStep, i, r int) rsStep {
+	for j := i + 1; j < len(steps); j++ {
+		if steps[j].R == r {
+			return steps[j]
+		}
+	}
+	return rsStep{}
 }
 
 // fate of request r after step i: "redirect", "ok", "fail" or "hold" (drained at stop)
@@ -292,7 +316,7 @@ func rsReplay(b *rsBeh) (res rsResult) {
 	res = rsResult{ID: b.ID, Strata: b.Strata, Steps: len(b.Steps), Expect: b.Expect, Exact: true}
 	defer func() { res.WallMs = int64(time.Since(t0) / time.Millisecond) }()
 	for _, s := range b.Steps {
-		if s.A == "ResendAfterQuit" || s.A == "RefreshSendAfterQuit" {
+		if s.A == "ResendAfterQuit" || s.A == "RefreshSendAfterQuit" || s.A == "DispatchForwardAfterQuit" {
 			res.ExitedExpected++
 		}
 	}
@@ -366,63 +390,123 @@ func rsReplay(b *rsBeh) (res rsResult) {
 	}
 	releaseAll := func(n *simredis.Node) { n.Release(n.Pending()) }
 
+	localCmd := func(r int, ok bool) []string {
+		switch {
+		case !b.Known[r-1]:
+			return []string{"nosuchcmd", reqs[r].key}
+		case ok:
+			return []string{"ping"}
+		default:
+			return []string{"get"} // a known command of invalid shape
+		}
+	}
+	clusterDone := 0 // answers to the refresher's requests the behaviour has had so far
+	refreshHeld := false
+
 	for i, s := range b.Steps {
 		var q *rsReq
 		if s.R >= 1 && s.R <= nreq {
 			q = reqs[s.R]
 		}
 		switch s.A {
-		case "DispatchLocal":
+		case "SessionDecodes":
 			c, err := sut.Dial(px.Addr)
 			if err != nil {
 				fail(i, s, "dial: "+err.Error())
 				return
 			}
 			q.conn = c
-			var v interface{ IsErr() bool }
-			switch {
-			case !b.Known[s.R-1]:
-				rv, err := c.Do(rsWait, "nosuchcmd", q.key)
+			q.decoded = "decoded:" + c.C.LocalAddr().String()
+			sc.Gate(q.decoded)
+			cmd := []string{"get", q.key}
+			if nx := rsNext(b.Steps, i, s.R); nx.A == "DispatchLocal" || nx.A == "DispatchLocalAfterQuit" {
+				cmd = localCmd(s.R, nx.OK)
+			}
+			if err := c.SendCmd(cmd...); err != nil {
+				fail(i, s, "send: "+err.Error())
+				return
+			}
+			if !sc.WaitParked(q.decoded, rsWait) {
+				fail(i, s, "the session reader never reached session.loopRead.decoded")
+				return
+			}
+		case "DispatchLocal":
+			if q.decoded != "" {
+				sc.Ungate(q.decoded)
+				q.decoded = ""
+			} else {
+				c, err := sut.Dial(px.Addr)
 				if err != nil {
-					fail(i, s, "no reply: "+err.Error())
+					fail(i, s, "dial: "+err.Error())
 					return
 				}
-				v = rv
-			case s.OK:
-				rv, err := c.Do(rsWait, "ping")
-				if err != nil {
-					fail(i, s, "no reply: "+err.Error())
+				q.conn = c
+				if err := c.SendCmd(localCmd(s.R, s.OK)...); err != nil {
+					fail(i, s, "send: "+err.Error())
 					return
 				}
-				v = rv
-			default:
-				rv, err := c.Do(rsWait, "get") // a known command of invalid shape
-				if err != nil {
-					fail(i, s, "no reply: "+err.Error())
-					return
-				}
-				v = rv
+			}
+			v, err := q.conn.Recv(rsWait)
+			if err != nil {
+				fail(i, s, "no reply: "+err.Error())
+				return
 			}
 			if v.IsErr() == s.OK {
 				diverge(i, s, fmt.Sprintf("reply error=%v, module ok=%v", v.IsErr(), s.OK))
 			}
-		case "DispatchForward":
-			c, err := sut.Dial(px.Addr)
-			if err != nil {
-				fail(i, s, "dial: "+err.Error())
+		case "DispatchLocalAfterQuit":
+			hk := "handled:" + strings.TrimPrefix(q.decoded, "decoded:")
+			before := sc.Arrived(hk)
+			sc.Ungate(q.decoded)
+			q.decoded = ""
+			if !sc.WaitArrived(hk, before+1, rsWait) {
+				fail(i, s, "the session reader never came back from handleRequest")
 				return
 			}
-			q.conn = c
+		case "DispatchForward":
 			q.forward = true
 			q.sends = 1
 			rsScript(q.cur, q, rsFate(b.Steps, i, s.R))
-			if err := c.SendCmd("get", q.key); err != nil {
-				fail(i, s, "send: "+err.Error())
-				return
+			if q.decoded != "" {
+				sc.Ungate(q.decoded)
+				q.decoded = ""
+			} else {
+				c, err := sut.Dial(px.Addr)
+				if err != nil {
+					fail(i, s, "dial: "+err.Error())
+					return
+				}
+				q.conn = c
+				if err := c.SendCmd("get", q.key); err != nil {
+					fail(i, s, "send: "+err.Error())
+					return
+				}
 			}
 			if !waitArrive(q, q.cur) {
 				fail(i, s, fmt.Sprintf("request never reached node %d", q.cur.Idx))
 				return
+			}
+		case "DispatchForwardAfterQuit":
+			q.forward = true
+			before := tr.count(q.key)
+			sc.Ungate(q.decoded)
+			q.decoded = ""
+			if !waitFor(rsWait, func() bool { return tr.count(q.key) > before }) {
+				fail(i, s, "the request dispatched after the quit was never answered")
+				return
+			}
+		case "ReaderTakes":
+			// only a reader that still holds the reply when the stop begins is held back; otherwise the
+			// reply is released (and read) by the step that uses it
+			if nx := rsNext(b.Steps, i, s.R); nx.A == "CompleteAfterQuit" || nx.A == "ResendAfterQuit" {
+				k := "paired:" + q.key
+				sc.Gate(k)
+				releaseAll(q.cur)
+				if !sc.WaitParked(k, rsWait) {
+					fail(i, s, "the backend reader never reached client.loopRead.paired")
+					return
+				}
+				q.inhand = true
 			}
 		case "Resend":
 			to := q.other()
@@ -434,33 +518,37 @@ func rsReplay(b *rsBeh) (res rsResult) {
 				fail(i, s, fmt.Sprintf("redirected request never reached node %d", to.Idx))
 				return
 			}
-		case "ResendAfterQuit":
-			before := tr.count(q.key)
-			releaseAll(q.cur)
-			if !waitFor(rsWait, func() bool { return tr.count(q.key) > before }) {
-				fail(i, s, "the redirected request was never answered")
-				return
-			}
-		case "Complete", "CompleteAfterQuit":
+		case "Complete":
 			before := tr.count(q.key)
 			releaseAll(q.cur)
 			if !waitFor(rsWait, func() bool { return tr.count(q.key) > before }) {
 				fail(i, s, "the request was never answered")
 				return
 			}
-			if s.A == "Complete" {
-				v, err := q.conn.Recv(rsWait)
-				if err != nil {
-					fail(i, s, "no reply on the downstream connection: "+err.Error())
-					return
-				}
-				if v.IsErr() == s.OK {
-					diverge(i, s, fmt.Sprintf("reply error=%v, module ok=%v", v.IsErr(), s.OK))
-				}
+			v, err := q.conn.Recv(rsWait)
+			if err != nil {
+				fail(i, s, "no reply on the downstream connection: "+err.Error())
+				return
+			}
+			if v.IsErr() == s.OK {
+				diverge(i, s, fmt.Sprintf("reply error=%v, module ok=%v", v.IsErr(), s.OK))
+			}
+		case "CompleteAfterQuit", "ResendAfterQuit":
+			if !q.inhand {
+				fail(i, s, "no backend reader held")
+				return
+			}
+			before := tr.count(q.key)
+			sc.Ungate("paired:" + q.key)
+			q.inhand = false
+			if !waitFor(rsWait, func() bool { return tr.count(q.key) > before }) {
+				fail(i, s, "the request in the reader's hand was never answered")
+				return
 			}
 		case "Drain":
-			if tr.count(q.key) == 0 {
-				diverge(i, s, "not drained by the stop")
+			if !waitFor(rsWait, func() bool { return tr.count(q.key) > 0 }) {
+				fail(i, s, "not drained by the stop")
+				return
 			}
 		case "Trigger":
 			if err := px.P.OnSvcHostAdd([]*host.Host{host.New(seed.Addr)}); err != nil {
@@ -490,19 +578,46 @@ func rsReplay(b *rsBeh) (res rsResult) {
 				return
 			}
 		case "RefreshSendAfterQuit":
-			before := tr.count("cluster")
+			clusterDone++
+			want := clusterDone
 			if !sc.Release(keyPicked) {
 				fail(i, s, "no refresher parked")
 				return
 			}
-			if !waitFor(rsWait, func() bool { return tr.count("cluster") > before }) {
+			if !waitFor(rsWait, func() bool { return tr.count("cluster") >= want }) {
 				fail(i, s, "the refresher's request was never answered")
 				return
 			}
+		case "ReaderTakesRefresh":
+			for j := i + 1; j < len(b.Steps); j++ {
+				if b.Steps[j].A == "RefreshDone" {
+					break
+				}
+				if b.Steps[j].A == "RefreshDoneAfterQuit" {
+					sc.Gate("paired:cluster")
+					releaseAll(seed)
+					if !sc.WaitParked("paired:cluster", rsWait) {
+						fail(i, s, "the seed client's reader never reached client.loopRead.paired")
+						return
+					}
+					refreshHeld = true
+					break
+				}
+			}
 		case "RefreshDone", "RefreshDoneAfterQuit":
-			before := tr.count("cluster")
-			releaseAll(seed)
-			if !waitFor(rsWait, func() bool { return tr.count("cluster") > before }) {
+			clusterDone++
+			want := clusterDone
+			if s.A == "RefreshDone" {
+				releaseAll(seed)
+			} else {
+				if !refreshHeld {
+					fail(i, s, "no backend reader held")
+					return
+				}
+				sc.Ungate("paired:cluster")
+				refreshHeld = false
+			}
+			if !waitFor(rsWait, func() bool { return tr.count("cluster") >= want }) {
 				fail(i, s, "cluster nodes was never answered")
 				return
 			}
@@ -520,9 +635,13 @@ func rsReplay(b *rsBeh) (res rsResult) {
 				}
 			}
 		case "RefreshDrain":
-			// checked after the stop
+			clusterDone++
+			want := clusterDone
+			if !waitFor(rsWait, func() bool { return tr.count("cluster") >= want }) {
+				fail(i, s, "the refresher's request was not drained by the stop")
+				return
+			}
 		case "Quit":
-			sc.Gate(keyClientStop)
 			stopping = true
 			go func() { px.P.Stop(); close(stopDone) }()
 			u := tr.upstream()
@@ -530,8 +649,7 @@ func rsReplay(b *rsBeh) (res rsResult) {
 				fail(i, s, "the upstream's quit latch was not closed")
 				return
 			}
-		case "ClientsStop":
-			sc.Ungate(keyClientStop)
+		case "Stopped":
 			select {
 			case <-stopDone:
 				res.StopOK = true
@@ -571,18 +689,12 @@ func rsReplay(b *rsBeh) (res rsResult) {
 			res.Double = append(res.Double, q.key)
 		}
 	}
-	sendsAfterQuit := 0
-	for _, s := range b.Steps {
-		if s.A == "RefreshSendAfterQuit" {
-			sendsAfterQuit++
-		}
-	}
-	if len(res.Completions["cluster"]) != refreshSends+sendsAfterQuit {
-		if len(res.Completions["cluster"]) < refreshSends+sendsAfterQuit {
+	if len(res.Completions["cluster"]) != clusterDone {
+		if len(res.Completions["cluster"]) < clusterDone {
 			res.NotCompleted = append(res.NotCompleted, "cluster")
 		}
 		res.Exact = false
-		res.Diverged = append(res.Diverged, fmt.Sprintf("%d refresh requests answered, module has %d", len(res.Completions["cluster"]), refreshSends+sendsAfterQuit))
+		res.Diverged = append(res.Diverged, fmt.Sprintf("%d refresh requests answered, module has %d", len(res.Completions["cluster"]), clusterDone))
 	}
 	if res.ExitedSeen != res.ExitedExpected {
 		res.Exact = false
